@@ -31,6 +31,7 @@ for dp, dn, fn in sorted(os.walk(pkg)):
         normalize.strip_noise(tree)
         normalize.lower_match(tree)
         normalize.hoist_walrus(tree)
+        normalize.split_divmod(tree)
         normalize.canon_shapes(tree)
         normalize.rotate_loops(tree)
         normalize.unwrap_genexp_loops(tree)
